@@ -5,6 +5,7 @@ import kinds
 import i64table
 import tables
 import estep
+import ewho
 
 LEVEL = "E-TABLE over mtbdd::terminal_bin"
 
@@ -39,4 +40,8 @@ def run(ctx):
                 "node must respect the variable order, and a cache entry must be valid for its key.")
     n = estep.run(ctx, F, kinds=("mtbdd",))
     ctx.floor("E-TABLE.step", "situations of the recursive step (apply_bin, apply_ite)", n, 50)
+    ctx.explain("E-WHO: MTBDD terminals are created on demand and freed by the manager's collection only (inside its "
+                "pre_gc/post_gc bracket): the apply cache holds uncounted terminal edges, so a terminal sweep from anywhere "
+                "else lets a cached result name a reused slot.")
+    ewho.run(ctx, F)
     ctx.not_decided = "non-overflow arithmetic of the terminal types, Div rounding, float behaviour"
